@@ -4,12 +4,18 @@
 (*   reset {sc, cfg}                   a new stream: publisher accepted, early consumers joined    *)
 (*   Join  {obs}                       a second set of consumers joins                             *)
 (*   Pub   {m, ts, obs}                one message of the accepted publisher                       *)
+(*   Stage {s, obs}                    a staging macro (see Payloads!StageStep): header, k copies   *)
+(*                                     of a letter, consumers joining in between; obs.hookN counts  *)
+(*                                     the whole macro, the got flags are those of the last copy    *)
 (*   End   {obs}                       publisher and consumers leave                               *)
 (* obs = [died, stalled, other, hookN, hook, rec, r0, f0, r1, f1 : [got, bad], crash, frame,        *)
 (*        confirmed]:  the process died / the call exceeded its budget (linear in the payload size) *)
 (* / a frame published to a second, idle stream reached its consumer / messages the hook saw in     *)
 (* this step / per opaque output: the message arrived byte-identical (got), messages that are not   *)
-(* byte-identical to anything published (bad).                                                     *)
+(* byte-identical to anything published (bad).  desc / pat (the first, parked RTSP subscriber has    *)
+(* had its DESCRIBE answered / PAT and PMT are in the TS recording) are not judged: where they differ *)
+(* from the stage state of the model a line @MIS@ is printed, counted by the check as a coverage     *)
+(* figure (the staged part of the model is meant to be exact).                                       *)
 (* Whatever the letter: the server lives, the call returns, the other stream flows, nothing is      *)
 (* altered, the fan-out is bounded independently of the timestamp; where the configuration makes    *)
 (* deliveries deterministic they are exactly the predicted ones.                                   *)
@@ -34,9 +40,15 @@ Reject == /\ failed' = TRUE
           /\ UNCHANGED <<h, np>>
 
 Opaque == {"hook", "rec", "r0", "f0", "r1", "f1"}
-Alive(o) == /\ ~o.died /\ ~o.stalled /\ o.other
-            /\ \A c \in Opaque : o[c].bad = 0
-            /\ o.hookN <= Burst(np)
+AliveN(o, c) == /\ ~o.died /\ ~o.stalled /\ o.other
+                /\ \A x \in Opaque : o[x].bad = 0
+                /\ o.hookN <= c * Burst(np + c)
+Alive(o) == AliveN(o, 1)
+
+\* not judged: the stage state of a staged history of the predicted configuration against what lal shows
+NoteStage(hn, o) ==
+  IF hn.stg = "s" /\ hn.cfg.predict /\ (o.desc # (hn.rp # "ana") \/ o.pat # (hn.tp # "probe"))
+  THEN PrintT("@MIS@" \o ToString(l)) ELSE TRUE
 
 TraceReset ==
   /\ IsEvent("reset")
@@ -46,7 +58,7 @@ TraceReset ==
 TraceJoin ==
   /\ IsEvent("Join")
   /\ LET o == Trace[l].obs
-     IN IF ~failed /\ h.late = "no" /\ Alive(o)
+     IN IF ~failed /\ h.late = "no" /\ h.stg # "end" /\ Alive(o)
         THEN h' = JoinStep(h) /\ UNCHANGED <<np, failed>>
         ELSE Reject
 
@@ -66,7 +78,31 @@ TracePub ==
                  /\ o.r0.got = Got(p.early) /\ o.f0.got = Got(p.early)
                  /\ o.r1.got = Got(p.late) /\ o.f1.got = Got(p.late)
                  /\ o.hookN = IF m.n > 0 THEN 1 ELSE 0
-        THEN h' = Step(h, m, e.ts) /\ np' = np + 1 /\ UNCHANGED failed
+           /\ h.stg # "end"
+           /\ o.hookN <= Burst(np)
+        THEN /\ h' = MStep(h, m, e.ts) /\ np' = np + 1 /\ UNCHANGED failed
+             /\ NoteStage(Step(h, m, e.ts), o)
+        ELSE Reject
+
+TraceStage ==
+  /\ IsEvent("Stage")
+  /\ LET e == Trace[l]
+         s == e.s
+         o == e.obs
+         c == StageCount(s)
+         hb == StageBeforeLast(h, s)
+         p == Outcome(hb, s.m)
+     IN IF /\ ~failed
+           /\ Fresh(h)
+           /\ s.ts \in TsOps /\ s.k \in 1..64 /\ s.j \in 0..64
+           /\ AliveN(o, c)
+           /\ (h.cfg.predict /\ ~s.m.loose) =>
+                 /\ o.hook.got = Got(p.hook) /\ o.rec.got = Got(p.rec)
+                 /\ o.r0.got = Got(p.early) /\ o.f0.got = Got(p.early)
+                 /\ o.r1.got = Got(p.late) /\ o.f1.got = Got(p.late)
+                 /\ o.hookN = (IF s.hdr.n > 0 THEN 1 ELSE 0) + (IF s.m.n > 0 THEN s.k ELSE 0)
+        THEN /\ h' = StageStep(h, s) /\ np' = np + c /\ UNCHANGED failed
+             /\ NoteStage(StageStep(h, s), o)
         ELSE Reject
 
 TraceEnd ==
@@ -76,7 +112,7 @@ TraceEnd ==
         THEN UNCHANGED <<h, np, failed>>
         ELSE Reject
 
-TraceNext == TraceReset \/ TraceJoin \/ TracePub \/ TraceEnd
+TraceNext == TraceReset \/ TraceJoin \/ TracePub \/ TraceStage \/ TraceEnd
 TraceSpec == TraceInit /\ [][TraceNext]_tvars
 
 HighWater == TLCSet(1, IF l > TLCGet(1) THEN l ELSE TLCGet(1))
